@@ -3,7 +3,9 @@
 Every ordered pair of keys from a boundary-heavy alphabet is stored in one
 cache and observed through len, both look-ups, membership, all four iteration
 orders and peekitem; compared with DC.Model (Disk.put/get, SqlVal comparison,
-the (key, raw) order).  Theorems: lean/properties.json."""
+the (key, raw) order).  Keys that differ only in the raw flag are also placed
+across the 100-row page boundaries of the sorted iteration.  Theorems:
+lean/properties.json."""
 import gen
 from props import base, refdict
 
@@ -13,8 +15,14 @@ def same_key(a, b):
         refdict.key_canon(a) == refdict.key_canon(b) or (refdict.key_canon(a)[0] == 'num' and a == b))
 
 
+LAYOUT = ['set', None, 'len', 'get', 'get', 'contains', 'iter', 'riter', 'iterkeys', 'riterkeys', 'peekitem', 'delete', 'contains', 'len']
+
+
 def acceptor(hist, io):
     ops = hist['ops']
+    # the verdict reads the fixed pair-history layout: anything else (a shrunk history) is not judged
+    if len(ops) != len(LAYOUT) or any(w is not None and o['m'] != w for o, w in zip(ops, LAYOUT)) or ops[1]['m'] not in ('set', 'add'):
+        return None
     k1, k2 = ops[0]['k'], ops[1]['k']
     res = [r for _, r in base.results_of(hist, io)]
     if hist['cfg'].get('disk') == 'json':
@@ -52,6 +60,44 @@ def acceptor(hist, io):
     return None
 
 
+def paged_histories(rng, tier):
+    """two keys that differ only in the raw flag (a bytes key equal to the serialized form of a
+    composite key) inside a table larger than one 100-row page of the sorted iteration, placed so
+    that the pair straddles a page boundary in either direction"""
+    import pickle
+    import pickletools
+    hists = []
+    counts = [(a, b) for a in (0, 98, 99, 100, 199) for b in (0, 98, 99, 100)] if tier == 'thorough' else \
+        [(99, 0), (98, 0), (100, 0), (0, 99), (0, 98), (199, 0), (99, 99), (0, 0)]
+    for proto in ((0, 2, 5) if tier == 'quick' else range(6)):
+        for other in ((1, 'a'), None):
+            pk = pickletools.optimize(pickle.dumps(other, protocol=proto))
+            for below, above in counts:
+                cfg = {'mfs': 32768, 'disk': 'pickle', 'proto': proto, 'policy': 'lrs', 'cull': 10, 'stats': 0}
+                keys = [i for i in range(below)] + [other, pk] + [b'\xff\xff' + bytes([i]) for i in range(above)]
+                rng.shuffle(keys)
+                ops = [{'m': 'set', 'now': 1000, 'k': k, 'v': 1, 'ttl': None, 'tag': None} for k in keys]
+                ops += [{'m': m, 'now': 1000} for m in ('len', 'iterkeys', 'riterkeys', 'iter', 'riter')]
+                hists.append({'cfg': cfg, 'ops': ops, 'state_every': 0})
+    return hists
+
+
+def paged_acceptor(hist, io):
+    """every stored key is listed exactly once by each of the four iteration orders"""
+    oplines = [l for l, _ in io if l.startswith('op ')]
+    stored = [base.line_field(l, 'k') for l in oplines if base.line_field(l, 'm') == 'set']
+    for (op, res) in base.results_of(hist, io):
+        if op['m'] in ('iterkeys', 'riterkeys', 'iter', 'riter'):
+            got = res[1:-1].split(',') if len(res) > 2 else []
+            if sorted(got) != sorted(stored):
+                missing = sorted(set(stored) - set(got))
+                return '%s listed %d keys, %d are stored (missing %s, listed twice %s)' % (
+                    op['m'], len(got), len(stored), missing[:3], sorted({g for g in got if got.count(g) > 1})[:3])
+        if op['m'] == 'len' and res != 'i%d' % len(stored):
+            return 'len is %s with %d different keys stored' % (res, len(stored))
+    return None
+
+
 def probe_d12():
     """equal composite keys whose sub-objects are shared differently (upstream issue #54)"""
     import shutil
@@ -79,6 +125,10 @@ def run(tier, seed, rng, known, replay):
         return base.replay_file(replay, 'C02', ('result', 'state'), acceptor)
     hists = gen.c02_histories(rng, tier)
     r = base.check_histories('C02', hists, ('result', 'state'), acceptor=acceptor, known=known)
+    phists = paged_histories(rng, tier)
+    rp = base.check_histories('C02', phists, ('result', 'state'), acceptor=paged_acceptor, known=known)
+    r['violations'] = (list(r['violations']) + list(rp['violations']))[:4]
+    r['divergent'] += rp['divergent']
     v = probe_d12()
     if v:
         k = base.match_known(known, {'cfg': {}}, None, v)
@@ -89,11 +139,11 @@ def run(tier, seed, rng, known, replay):
                                     'found_input': True, 'what': v})
     dist, distinct = base.op_distribution(hists, r['impl_out'])
     return {
-        'evaluations': len(hists),
+        'evaluations': len(hists) + len(phists),
         'distinct_nontrivial': len({(h['cfg']['disk'], h['cfg']['proto'], repr(h['ops'][0]['k']), repr(h['ops'][1]['k'])) for h in hists}),
         'rule': 'every ordered pair of keys from the boundary alphabet (ints at +-2^53, +-2^63, beyond 64 bits; floats incl. -0.0, inf, subnormal, '
                 'integral near 2^53/2^63; str/bytes with equal content; None/bool; tuples; bytes equal to the pickle of another key), Disk and JSONDisk, '
-                'protocols 0-5; exhaustive over the alphabet; distinct = distinct (disk, protocol, k1, k2)',
+                'protocols 0-5; exhaustive over the alphabet; plus tables of 2-300 keys in which a raw/non-raw pair with the same database key straddles a 100-row page boundary of the sorted iteration in either direction; distinct = distinct (disk, protocol, k1, k2)',
         'samples': [base.sample(hists[1], r['impl_out'][1]), base.sample(hists[-1], r['impl_out'][-1])],
         'traces': len(hists), 'exhaustive': True,
         'dist': dict(dist, histories=len(hists), divergent=r['divergent'], timing=r['stats']),
